@@ -30,6 +30,11 @@ RULE = ("2-3 participants run the real ParallelEtherCat.run() enter / hold / "
         "distinct; logical address windows of concurrently live "
         "participants are disjoint (random window choice narrowed to 1..3 so "
         "that collisions show); failing participants are counted by kind. "
+        "Second leg, the FMMU address map alone: 2 (enumerated) and 3-4 "
+        "(sampled) participants create, hold and remove FMMULocks twice "
+        "each, every os / lockf call a scheduling point, random draws from "
+        "six addresses spread over three bitmap bytes: windows held at the "
+        "same time are distinct. "
         "a case = one "
         "schedule; non-trivial = the participants' operations really "
         "interleave (>= 1 switch while both were enabled)")
@@ -144,6 +149,111 @@ def run_schedule(prefix, npart, rseed):
         ecmod.randrange = old_err[0]
         shutil.rmtree(root, ignore_errors=True)
     return trace, status, sched.events
+
+
+def run_fmmu_schedule(prefix, npart, rseed, rounds=2):
+    """participants create / use / remove FMMULocks on one address map; the
+    random draws come from a small set that spans several bitmap bytes"""
+    import os
+    root = tempfile.mkdtemp(prefix="vf-c23f-")
+    os.makedirs(root + "/run/ebpf")
+    rng = random.Random(rseed)
+    universe = [1, 2, 9, 10, 17, 3]
+
+    def schedule_fn(trace, enabled):
+        i = len(trace)
+        if i < len(prefix) and prefix[i] in enabled:
+            return prefix[i]
+        if trace and trace[-1][0] in enabled:
+            return trace[-1][0]
+        return enabled[0]
+    sched = gates.Sched(root, schedule_fn)
+    prox = gates.Proxies(sched)
+    old = (lockmod.os, lockmod.fcntl, lockmod.randrange)
+    lockmod.os, lockmod.fcntl = prox.lock_os, prox.fcntl
+    lockmod.randrange = lambda a, b=None: rng.choice(universe)
+
+    def participant(pid):
+        sched.pids[threading.get_ident()] = pid
+        try:
+            for r in range(rounds):
+                sched.gate(("start", r))
+                lk = lockmod.FMMULock("/run/ebpf/vf0.fmmu")
+                sched.record("alloc", lk.base_addr)
+                sched.gate(("hold", r))
+                sched.record("release", lk.base_addr)
+                lk.remove()
+        except gates.Killed:
+            pass
+        except BaseException as ex:
+            sched.record("failed", f"{type(ex).__name__}: {ex}")
+        finally:
+            sched.finished(pid)
+    threads = [threading.Thread(target=participant, args=(p,), daemon=True)
+               for p in range(npart)]
+    try:
+        for t in threads:
+            t.start()
+        trace, status = sched.run(npart, max_steps=900)
+        if status != "finished":
+            with sched.cv:
+                sched.killed |= set(range(npart))
+                sched.cv.notify_all()
+        for t in threads:
+            t.join(5)
+    finally:
+        lockmod.os, lockmod.fcntl, lockmod.randrange = old
+        shutil.rmtree(root, ignore_errors=True)
+    return trace, status, sched.events
+
+
+def judge_fmmu(events):
+    live = {}
+    for step, pid, op, detail in events:
+        if op == "failed":
+            return "fmmu-participant-failed", (
+                f"participant {pid} failed: {detail}")
+        if op == "alloc":
+            if detail % (1 << 22) or not 0 < detail >> 22 < 512:
+                return "fmmu-bad-window", (
+                    f"participant {pid} got base address {detail:#x}")
+            for q, b in live.items():
+                if b >> 22 == detail >> 22:
+                    return "overlapping-logical-windows", (
+                        f"participants {q} and {pid} both hold the logical "
+                        f"window {detail:#x}")
+            live[pid] = detail
+        elif op == "release":
+            live.pop(pid, None)
+    return None
+
+
+def analyse_fmmu(choices, trace, status, events, npart, res, sigs, kind):
+    switches = sum(1 for i in range(1, len(trace))
+                   if trace[i][0] != trace[i - 1][0]
+                   and trace[i - 1][0] in trace[i][1])
+    res.case([kind, choices], nontrivial=switches >= 1)
+    res.count(f"schedules_{kind}")
+    res.count("gate_steps", len(trace))
+    res.count("fmmu_allocations",
+              sum(1 for e in events if e[2] == "alloc"))
+    sigs.add(hash(tuple((p, op, d) for _, p, op, d in events)))
+    desc = dict(kind=kind, participants=npart, schedule=list(choices))
+    if status == "stuck":
+        # wall-clock watchdog of the scheduler: never a verdict
+        res.inconc(f"schedule {desc} did not reach its next gate in time")
+        return
+    if status != "finished":
+        res.violation("unexplained:" + status.replace(" ", "-"),
+                      f"schedule ended '{status}'", case=desc,
+                      witness=events[-12:])
+        return
+    bad = judge_fmmu(events)
+    if bad:
+        res.violation(bad[0] if bad[0] != "fmmu-participant-failed"
+                      else "unexplained:fmmu-participant-failed", bad[1],
+                      case=desc, witness=[(st, p, op, str(d)[:40])
+                                          for st, p, op, d in events])
 
 
 def preemptions(trace_prefix):
@@ -269,6 +379,38 @@ def run_shard(params):
         trace, status, events = run_schedule(pre, 3, r.getrandbits(16))
         analyse(tuple(c for c, _ in trace), trace, status, events, 3, res,
                 sigs, "random3")
+    # FMMU address map alone: 2 participants enumerated, 3-4 sampled
+    stack = [()]
+    seen2 = set()
+    while stack and len(seen2) < params.get("fmmu_cap", 400):
+        prefix = stack.pop()
+        if prefix in seen2:
+            continue
+        seen2.add(prefix)
+        trace, status, events = run_fmmu_schedule(prefix, 2, 11)
+        choices = tuple(c for c, _ in trace)
+        for i in range(len(prefix), len(trace)):
+            chosen, enabled = trace[i]
+            for alt in enabled:
+                if alt == chosen:
+                    continue
+                if not prefix and i % params["of"] != params["shard"]:
+                    continue
+                newp = choices[:i] + (alt,)
+                tp = list(trace[:i]) + [(alt, enabled)]
+                if preemptions(tp) <= min(budget, 2) and newp not in seen2:
+                    stack.append(newp)
+        if not prefix and params["shard"] != 0:
+            continue
+        analyse_fmmu(choices, trace, status, events, 2, res, sigs,
+                     "fmmu_enumerated")
+    for j in range(params["rnd"] * 3):
+        r = random.Random(rng.getrandbits(32))
+        n = r.choice([3, 4])
+        pre = tuple(r.randrange(n) for _ in range(200))
+        trace, status, events = run_fmmu_schedule(pre, n, r.getrandbits(16))
+        analyse_fmmu(tuple(c for c, _ in trace), trace, status, events, n,
+                     res, sigs, "fmmu_random")
     res.info["distinct_interleavings"] = len(sigs)
     res.info["exhaustive"] = False
     return res
@@ -283,6 +425,10 @@ def analyse(choices, trace, status, events, npart, res, sigs, kind):
     res.count("gate_steps", len(trace))
     sigs.add(hash(tuple((p, op) for _, p, op, _ in events)))
     desc = dict(kind=kind, participants=npart, schedule=list(choices))
+    if status == "stuck":
+        # wall-clock watchdog of the scheduler: never a verdict
+        res.inconc(f"schedule {desc} did not reach its next gate in time")
+        return
     if status != "finished":
         res.violation("unexplained:" + status.replace(" ", "-"),
                       f"schedule ended '{status}'", case=desc,
@@ -323,11 +469,16 @@ def finalize(res, tier, seed):
         res.inconc("no schedule enumerated")
     if not c.get("schedules_random3"):
         res.inconc("no 3-participant schedule ran")
+    if not c.get("schedules_fmmu_enumerated") or \
+            not c.get("schedules_fmmu_random"):
+        res.inconc("FMMU address-map leg did not run")
 
 
 def replay(v):
     res = Result()
     c = v["case"]
+    if c["kind"].startswith("fmmu"):
+        return res      # random draws are not stored in the case
     trace, status, events = run_schedule(tuple(c["schedule"]),
                                          c["participants"], 7)
     analyse(tuple(x for x, _ in trace), trace, status, events,
